@@ -49,7 +49,9 @@ def cases(draw):
             'flux': [[draw(gen.logfloat(1e-8, 1e8)) for _ in range(nw)] for _ in range(nap)],
             'stored': A, 'spelling': draw(st.sampled_from(SPELL[A])), 'B': draw(st.sampled_from(UNITS)), 'C': draw(st.sampled_from(UNITS)),
             'distance_kpc': draw(st.one_of(st.none(), gen.logfloat(1e-3, 1e4))), 'storage': draw(st.sampled_from(['asc', 'desc'])),
-            'bad_target': draw(st.sampled_from(['K', 'm', 'Hz']))}
+            'bad_target': draw(st.sampled_from(['K', 'm', 'Hz'])),
+            # the error column may be stored in its own unit (any of the supported ones)
+            'err_stored': draw(st.one_of(st.none(), st.sampled_from(UNITS)))}
 
 
 def run_case(case, ctx):
@@ -63,13 +65,17 @@ def run_case(case, ctx):
     nw, nap = len(wav), len(case['apertures'])
     idx = list(range(nw)) if case['storage'] == 'asc' else list(range(nw))[::-1]
     err = [[0.1 * v for v in row] for row in case['flux']]
+    E = case.get('err_stored') or A
+    espell = case['spelling'] if E == A else SPELL[E][0]
+    if E != A:
+        labels.add('error_column_in_another_unit')
     with ctx.tempdir() as d:
         path = os.path.join(d, 'x_sed.fits')
         swav = [wav[i] for i in idx]
         legacy = case['spelling'] == 'ergs/cm^2/s'
         pkgio.write_sed_file(path, 'x', swav, pkgio.wav_to_nu(swav), case['apertures'],
                              [[row[i] for i in idx] for row in case['flux']], [[row[i] for i in idx] for row in err],
-                             flux_unit=case['spelling'], distance_cm=None if case['distance_kpc'] is None else dcm,
+                             flux_unit=case['spelling'], err_unit=espell, distance_cm=None if case['distance_kpc'] is None else dcm,
                              wav_unit='MICRONS' if legacy else 'um', nu_unit='HZ' if legacy else 'Hz')
         with must_succeed('SED.read(unit_flux=%s) of a file stored in %r' % (B, case['spelling'])):
             s = SED.read(path, unit_flux=U(B), order='wav')
@@ -80,7 +86,7 @@ def run_case(case, ctx):
             for p in range(nw):
                 nu = om.C_UM_HZ / wav[p]
                 want = om.convert_flux_ref(case['flux'][a][p], nu, A, B, dcm)
-                wante = om.convert_flux_ref(err[a][p], nu, A, B, dcm)
+                wante = om.convert_flux_ref(err[a][p], nu, E, B, dcm)
                 if abs(sw[p] - wav[p]) > 1e-12 * wav[p]:
                     fail('wavelength axis changed', 'c15:axis')
                 if abs(got[a][p] - want) > 1e-12 * abs(want) or abs(gote[a][p] - wante) > 1e-12 * abs(wante):
@@ -92,7 +98,7 @@ def run_case(case, ctx):
         path2 = os.path.join(d, 'y_sed.fits')
         pkgio.write_sed_file(path2, 'y', swav, pkgio.wav_to_nu(swav), case['apertures'],
                              [[row[i] for i in idx] for row in case['flux']], [[row[i] for i in idx] for row in err],
-                             flux_unit=case['spelling'], distance_cm=d2cm,
+                             flux_unit=case['spelling'], err_unit=espell, distance_cm=d2cm,
                              wav_unit='MICRONS' if legacy else 'um', nu_unit='HZ' if legacy else 'Hz')
         with must_succeed('SED.read of a second file'):
             s2 = SED.read(path2, unit_flux=U(B), order='wav')
@@ -103,6 +109,30 @@ def run_case(case, ctx):
                 if abs(got2[a][p] - want) > 1e-12 * abs(want):
                     fail('a second file (same frequencies, distance %r cm instead of %r cm) stored in %s read as %s gives %r, '
                          'F=nu*F_nu / L=F*d^2 with ITS distance give %r' % (d2cm, dcm, A, B, got2[a][p], want), 'c15:distance_of_other_file')
+        # the same SED written by the library's own writer (flux in A, errors in E) and read in B
+        from vlib import gen as _g  # noqa
+        so = SED()
+        with must_succeed('building and writing an SED with SED.write'):
+            so.name = 'z'
+            so.distance = dcm * u.cm
+            so.wav = np.array(wav) * u.micron
+            so.nu = so.wav.to(u.Hz, equivalencies=u.spectral())
+            so.apertures = np.array(case['apertures']) * u.au
+            so.flux = np.array(case['flux']) * U(A)
+            so.error = np.array(err) * U(E)
+            path3 = os.path.join(d, 'z_sed.fits')
+            so.write(path3)
+        with must_succeed('SED.read of a file written by SED.write'):
+            s3 = SED.read(path3, unit_flux=U(B), order='wav')
+        g3, e3 = np.asarray(s3.flux.to(U(B)).value), np.asarray(s3.error.to(U(B)).value)
+        for a in range(nap):
+            for p in range(nw):
+                nu_p = float(so.nu[p].value)
+                want = om.convert_flux_ref(case['flux'][a][p], nu_p, A, B, dcm)
+                wante = om.convert_flux_ref(err[a][p], nu_p, E, B, dcm)
+                if abs(g3[a][p] - want) > 1e-12 * abs(want) or abs(e3[a][p] - wante) > 1e-12 * abs(wante):
+                    fail('SED written by SED.write with flux in %s and errors in %s, read in %s: %r +- %r, expected %r +- %r' % (
+                        A, E, B, g3[a][p], e3[a][p], want, wante), 'c15:library_written_file')
         # refused targets
         bad = case['bad_target']
         try:
